@@ -25,7 +25,7 @@ RESERVED = set("""from type class pure isa as import forward vararg fin def mod 
 return with raise handle when pass self None True False print _ Int Float Str Bool Complex List Set Dict Tuple Range Slice Any Exception Callable Collection Enum
 __init__ undefined range str int float bool len abs min max sum input""".split())
 LOWER_POOL = ["foo", "bar1", "q", "_t", "size", "init", "super", "math", "typing", "abstractmethod", "err", "other", "abc", "optional", "list", "dict", "object", "type_", "lambda_", "del_", "value"]
-UPPER_POOL = ["Foo", "Optional", "Union", "NewType", "ABC", "Generic", "Math", "Object", "T"]
+UPPER_POOL = ["Foo", "Optional", "Union", "NewType", "ABC", "Generic", "Math", "Object", "T", "R", "A", "B"]   # T, R, A, B: the placeholders of the generic stub classes
 
 
 def identifiers(src):
@@ -140,6 +140,12 @@ def base_programs(tier):
         'def scale(n: Int, num: Int) -> Int => n * num\ndef report(n: Int, num: Int) =>\n    with n as m: Int do\n        print(m + num)\nreport(2, 3)\nprint(scale(2, 3))\n',
         'def count: Int := 1\ndef count: Int := 2\ndef c: Int := 10\nwith c as d: Int do\n    print(count + d)\n',
         'def val: Int := 1\ndef c := True\nif c then\n    def val: Int := 2\n    print(val)\ndef v: Int := val + 1\nprint(v)\nfor va in 0 .. 2 do\n    print(va + val)\n',
+    ]
+    extra += [
+        # user classes as arguments of the built-in generic classes (whose stubs have placeholders of their own), values taken out again
+        'class Item(def cost: Int)\n    def get(self) -> Int => self.cost\ndef d: Dict[Str, Item] := {"a" => Item(1), "b" => Item(2)}\ndef e := d["a"]\nprint(e.get())\ndef e2: Item := d["b"]\nprint(e2.get())\n',
+        'class Item(def cost: Int)\n    def get(self) -> Int => self.cost\nclass Key(def k: Int)\ndef l: List[Item] := [Item(1), Item(2)]\ndef f: Item := l[0]\nprint(f.get())\ndef p: (Key, Item) := (Key(1), Item(3))\ndef (pk, pi) := p\nprint(pi.get())\nprint(pk.k)\n',
+        'class Item(def cost: Int)\n    def get(self) -> Int => self.cost\ndef s: Set[Item] := {Item(1)}\nfor it in s do\n    print(it.get())\ndef dd: Dict[Int, Item] := {1 => Item(4)}\ndef g: Item := dd[1]\nprint(g.get())\n',
     ]
     for case in progs:
         yield case["id"], to_mamba(case["prog"])
